@@ -119,7 +119,7 @@ var kindsFor = map[string][]string{
 	"C05": {"kernel-verifier", "return-set", "fault"}, "C06": {"decision", "fault", "valid-rejected"},
 	"C07": {"panic", "invalid-accepted", "error-with-program", "valid-rejected"},
 	"C14": {"roundtrip", "marshal", "config-parse", "config-unpack", "roundtrip-assemble", "action-roundtrip", "operation-roundtrip", "unknown-action", "action-accepts-garbage", "operation-case", "action-case"},
-	"C13": {"nondeterministic-text"},
+	"C13": {"nondeterministic-text", "caller-policy-modified", "compile-differs", "recompile-differs", "compilations-influence-each-other", "result-overwritten"},
 	"C12": {"inverse", "alias", "unsupported"},
 	"C17": {"incomplete-cache-reused", "failed-run-no-error", "complete-cache-not-reused"},
 	"C18": {"profile-set"},
